@@ -38,6 +38,8 @@ def plan(tier, seed):
     units.append({'kind': 'shapes', 'seed': seed})
     for i in range(31 if tier == 'quick' else 160):
         units.append({'kind': 'triples', 'seed': seed * 4001 + i, 'n': 2500 if tier == 'quick' else 12000})
+    for i in range(16 if tier == 'quick' else 80):
+        units.append({'kind': 'multi', 'seed': seed * 4001 + 900 + i, 'n': 250 if tier == 'quick' else 1200})
     return units
 
 
@@ -166,6 +168,49 @@ def run_unit(u):
                 case(t, a, None, '3', label='numbers')
                 case(t, None, a, '3', label='numbers')
                 case(t, '2', '4', a, label='numbers')
+    elif u['kind'] == 'multi':
+        # one select() over a form holding several inputs of different types that share the same attribute strings
+        import bs4
+        rng = random.Random(u['seed'])
+        shared = ['2020-06', '2020-06-15', '2020-W10', '10:30', '5', '2020-06-15T10:30', '2020-12', '0001-01', '12', '2020-W53', '.5', '23:59',
+                  '2021-01', '2020-02-29', '10000-01', '7']
+        for _ in range(u['n']):
+            soup = bs4.BeautifulSoup('', 'html.parser')
+            form = soup.new_tag('form')
+            soup.append(form)
+            els = []
+            pool = rng.sample(shared, 3)
+            for _i in range(rng.randint(2, 7)):
+                e = soup.new_tag('input')
+                e['type'] = rng.choice(TYPES)
+                for a in ('min', 'max', 'value'):
+                    if rng.random() < .75:
+                        e[a] = rng.choice(pool)
+                form.append(e)
+                els.append(e)
+            st1, gin = monitors.guarded_call(sv.select, ':in-range', soup)
+            st2, gout = monitors.guarded_call(sv.select, ':out-of-range', soup)
+            res['evals'] += 1
+            bump('multi_input_documents')
+            if st1 != 'ok' or st2 != 'ok':
+                bump('VIOL')
+                res['viol'].append({'what': 'select(:in-range/:out-of-range) raised on %s' % soup.decode()[:300], 'selector': ':in-range', 'class': sig('multi-raise')})
+                continue
+            for pos, e in enumerate(els):
+                exp = expect(e['type'], e.get('min'), e.get('max'), e.get('value'))
+                got = (any(x is e for x in gin), any(x is e for x in gout))
+                if got == exp:
+                    continue
+                if 'week53-when-dec31-in-week1' in open_keys and got == expect(e['type'], e.get('min'), e.get('max'), e.get('value'), week53=True):
+                    bump('known:week53-when-dec31-in-week1')
+                    continue
+                bump('VIOL')
+                if len([x for x in res['viol'] if 'known_key' not in x]) < 8:
+                    res['viol'].append({'what': 'in one select() over %s: input #%d %r is (in, out) = %r, calendar says %r' % (
+                        soup.decode()[:400], pos, dict(e.attrs), got, exp), 'selector': ':in-range', 'markup': soup.decode(),
+                        'class': sig('multi', e['type'])})
+                break
+        res['samples'].append({'multi_input_document': soup.decode()[:300]})
     else:
         rng = random.Random(u['seed'])
         pools = {
@@ -207,6 +252,15 @@ def classify(w):
 
 def replay(w):
     import soupsieve as sv
+    if 'markup' in w:
+        import bs4
+        soup = bs4.BeautifulSoup(w['markup'], 'html.parser')
+        gin, gout = sv.select(':in-range', soup), sv.select(':out-of-range', soup)
+        for e in soup.find_all('input'):
+            exp = expect(e.get('type', ''), e.get('min'), e.get('max'), e.get('value'))
+            if (any(x is e for x in gin), any(x is e for x in gout)) != exp:
+                return dict(w, status_now='still differs for %r' % dict(e.attrs))
+        return None
     pr = Probe(sv)
     t, mn, mx, v = w['case']
     got = pr.observe(t, mn, mx, v)
